@@ -75,13 +75,13 @@ theorem step_idx (s : Sys) (op : Op) (hs : SIdx s) : SIdx (s.step op).1 := by
   | connect h cslot sslot peer =>
     rw [Sys.step]
     try dsimp only
-    exact settleConnect_idx s cslot _ _ _ hs (((hs.kernel h).openSock _ _).pollConnect _ _)
+    exact settleConnect_idx s cslot _ _ _ hs (((hs.kernel h).openSock _ _).pollConnect s.cfg _ _)
   | cpoll cslot sslot =>
     rw [Sys.step]
     split
     · exact hs
     · dsimp only
-      exact settleConnect_idx s cslot _ _ _ hs ((hs.kernel _).pollConnect _ _)
+      exact settleConnect_idx s cslot _ _ _ hs ((hs.kernel _).pollConnect s.cfg _ _)
   | ccancel cslot =>
     rw [Sys.step]
     split
